@@ -47,6 +47,9 @@ def cases(draw):
     rho_crit = draw(pos(10, 0.7 * rho_max))
     v_free = draw(pos(30, 160))
     a = draw(st.one_of(pos(0.8, 4), st.sampled_from([1.0, 2.0, 3.0])))
+    if draw(st.integers(0, 3)) == 0:
+        # typical round numbers, repeated across cases of the same process while the other arguments change
+        rho_max, rho_crit, v_free, a = draw(st.sampled_from([(180.0, 33.5, 102.0, 1.867), (180.0, 30.0, 100.0, 2.0), (120.0, 30.0, 100.0, 2.0)]))
     lanes = draw(st.integers(1, 5))
     L = draw(pos(0.2, 3))
     T = draw(pos(1, 60)) / 3600
